@@ -615,7 +615,7 @@ pub fn prop(tier: Tier, _seed: u64) -> Prop {
         let mut chk = RefCheck { st: Stats { ctx, kind_name: REF_KINDS[kind], root_w: rw }, view, tr: &tr, second_level: second };
         with_ref_view(kind, &mut root, view, &mut chk);
         ctx.class(mix(kind as u64, mix(margin as u64, (w.min(3) * 4 + h.min(3)) as u64)));
-    }));
+    }).isolated());
 
     // ---- mutable views, first level: every triple
     let dimsm = vec![5u64, 2, b as u64, b as u64, 2];
@@ -649,7 +649,7 @@ pub fn prop(tier: Tier, _seed: u64) -> Prop {
             }
         }
         ctx.class(mix(kind as u64 + 100, mix(margin as u64, (w.min(3) * 4 + h.min(3)) as u64 * 2 + d[4] as u64)));
-    }));
+    }).isolated());
 
     // ---- mutable split-of-split
     let dims3 = vec![5u64, 2, b2 as u64, b2 as u64, 2];
@@ -680,7 +680,7 @@ pub fn prop(tier: Tier, _seed: u64) -> Prop {
             }
         }
         ctx.class(mix(kind as u64 + 200, mix(margin as u64, (w.min(3) * 4 + h.min(3)) as u64 * 2 + d[4] as u64)));
-    }));
+    }).isolated());
 
     p.rule = "view kind (7 immutable, 5 mutable incl. nested crops and a harness view that uses only the trait defaults) x parent margins {0,2} x view sizes (1..B)^2 x both directions x every (start,size,parts) incl. invalid ones and values near u32::MAX; immutable parts are read back against the rectangle model (tags), mutable parts paint their index and the root image is compared with the expected index map (sentinel outside); second level: every part is split again in both directions (sub-triples) for views up to B2 x B2".into();
     p.bounds = json!({"B": b, "B2": b2});
